@@ -725,17 +725,20 @@ def q_bounds(ctx, p):
                 if is_flag and ("place:" + mk.group(1)) not in enc.modelled_flags:
                     undecided += 1
                     continue
-                if "havoc_" in str(c) or "unm_" in str(c):
-                    undecided += 1
-                    continue
-                if p.get("inputs_only") and not provenance_ok(enc, c, True):
-                    undecided += 1
-                    und_sites.append("%s bb%d %s [operands not built from inputs]" % (short_fn(fn.name), b, re.sub(r"\s+", " ", t.get("msg", ""))[:34]))
-                    continue
+                # A check that cannot fail for ANY value of the arbitrary terms (loop-carried, unmodelled,
+                # state-derived) is discharged all the same - arbitrary is an over-approximation; such
+                # terms only make a SATISFIABLE answer meaningless, so there the site is undecided.
+                weak = ("havoc_" in str(c) or "unm_" in str(c) or (p.get("inputs_only") and not provenance_ok(enc, c, True)))
+            else:
+                weak = False
             if neg:
                 c = z3.Not(c)
-            obligations += 1
             r = ctx.check(s, enc.reach[b], z3.Not(c))
+            if r == z3.sat and weak:
+                undecided += 1
+                und_sites.append("%s bb%d %s [operands not built from inputs]" % (short_fn(fn.name), b, re.sub(r"\s+", " ", t.get("msg", ""))[:34]))
+                continue
+            obligations += 1
             if r == z3.unsat:
                 discharged += 1
             elif r == z3.sat:
@@ -819,6 +822,7 @@ def q_alloc_bound(ctx, p):
         try:
             gl = sym.Glob()
             gl.min_len = dict(p.get("min_len") or {})
+            gl.input_calls = list(p.get("input_calls") or [])
             enc = sym.Enc(fn, funcs, gl)
         except Exception as ex:
             details.append("%s: not encoded (%r)" % (short_fn(fn.name), ex))
@@ -848,12 +852,14 @@ def q_alloc_bound(ctx, p):
             # PARAMETERS of the function, lengths of existing collections and constants; sizes that
             # depend on fields of existing state, results of unmodelled calls/operators or
             # loop-carried values are undecided, never witnesses
-            if not provenance_ok(enc, arg, False):
+            r = ctx.check(s, enc.reach[b], arg > limit)
+            if r == z3.sat and not provenance_ok(enc, arg, False):
+                # a bound that holds for ANY value of the arbitrary terms is discharged; a satisfiable
+                # answer that depends on them is meaningless: undecided
                 undecided += 1
                 und_sites.append("%s bb%d %s [size not built from inputs]" % (short_fn(fn.name), b, cal.split("::")[-1]))
                 continue
             obligations += 1
-            r = ctx.check(s, enc.reach[b], arg > limit)
             if r == z3.unsat:
                 discharged += 1
             elif r == z3.sat:
